@@ -157,6 +157,8 @@ def run(tier, seed, deep, hints):
     findings, evals, distinct = [], 0, set()
     sample = None
     for i in range(n):
+        if core.search_expired():
+            break
         if i % 2 == 0:
             est, fpr = rng.choice([(1, 0.5), (2, 0.3), (3, 0.05), (5, 0.01), (10, 0.05)])
             from probables import CountingBloomFilter
